@@ -295,6 +295,12 @@ def run_case(case):
         g0, e0 = probe.attempt(co.gcirc, *args)
         _rel("getangle-same-distance", e0 is None and isinstance(ga, tuple) and len(ga) == 2 and
              np.array_equal(np.atleast_1d(ga[0]), np.atleast_1d(g0)), "gcirc(getangle=True) returns another distance than gcirc()", wit)
+    # radian input whose longitudes differ by whole multiples of 360.0 *radians* (360 is no period there)
+    if rng.random() < .2:
+        r0, d0 = float(rng.uniform(-3, 3)), float(rng.uniform(-1.5, 1.5))
+        k360 = 360.0 * float(rng.choice([1, -1, 2]))
+        probe.attempt(co.sphdist, r0, d0, r0 + k360, d0, units=["rad", str(rng.choice(["rad", "deg"]))])
+        probe.attempt(co.sphdist, np.array([r0, r0 + 1.0]), np.array([d0, d0]), np.array([r0 + k360, r0 + 1.0 + k360]), np.array([d0, d0]), units=["rad", "rad"])
     # unit options of sphdist
     if form not in ("list", "tuple"):
         r = [np.radians(a) for a in args]
